@@ -28,6 +28,8 @@ var c15Tokens = []string{"a", "b", "x", "0", "1", "-", ".", `"s"`, "`s`", `"/a"`
 // number shapes, identifier shapes, other blanks, odd quotes and foreign operators
 var c15Ext = append(append([]string{}, c15Tokens...), "AND", "Or", "NOT", "In", "IS", "Empty", "ANY", "As", "Matches", "Contains", "ALL",
 	"00", "01", "10", "1.", ".5", "1.5", "1e3", "+1", "-1", "a-b", "a_b", "a/b", "A", "é", "a1", "1a", "\t", "\n", "  ", `"\\"`, "``", `""`, "'s'", `"a b"`, "`a\nb`", `"/"`, `"/a/"`, `"/a~1b"`, `"//a"`,
+	// JSON-pointer escapes at every position of a segment, adjacent escapes, the pair whose decoding order matters (~01), a lone tilde
+	`"/a~01b"`, `"/a~1"`, `"/a~0"`, `"/~1a"`, `"/~0~1"`, `"/~1~0"`, `"/~01"`, `"/~10"`, `"/a~"`, `"/~"`, `"/a~2"`, `"/a~1/~0b"`,
 	"\"a\nb\"", "`a\rb`", "\"a\rb\"", "\"a\tb\"", "`\r`", "\"\n\"",
 	"&&", "||", "=", "!", "<", ";", "notx", "nota", "isempty", "anyx", "in1", "/a", "~", ":", "|", "[0]", "{}", "()", "\x00", "\xff")
 
